@@ -182,4 +182,52 @@ theorem ofEntries_isSome (es : List Entry) (k : Bytes) :
     ((MemInfo.ofEntries es).get k).isSome = true ↔ ∃ e ∈ es, e.name = k := by
   simp [MemInfo.ofEntries]
 
+/-- the promise for given totals (what `vm` returns when MemTotal / MemFree are present) -/
+def specVm (m : MemInfo) (wm : Option Nat) (total free : Nat) : Vm :=
+  let avail := clamp (Spec.availRaw m free wm) total free
+  { total := total, available := avail, percentExact := percentExact total avail,
+    used := used total free (cached m) (buffers m), free := free, active := active m,
+    inactive := inactive m, buffers := buffers m, cached := cached m, shared := shared m,
+    slab := slab m, warned := warned m free wm }
+
+theorem vm_eq_specVm (m : MemInfo) (wm : Option Nat) (total free : Nat)
+    (ht : m.bytes "MemTotal" = some total) (hf : m.bytes "MemFree" = some free) :
+    vm m wm = some (specVm m wm total free) := by
+  simp [vm, ht, hf, specVm]
+
+theorem bridge_parsed (es : List Entry) :
+    Bridge (fun k => ((es.map (kv 1024)).reverse).lookup k) (MemInfo.ofEntries es) := by
+  intro s
+  simp only [key, MemInfo.bytes]
+  exact lookup_parsed 1024 es (K s)
+
+theorem percentExact_cast (total : Nat) (avail : Int) :
+    percentExact total avail
+      = if total = 0 then 0 else ((((total : Int) - avail : Int)) : ℚ) / total * 100 := by
+  unfold percentExact
+  split
+  · rfl
+  · push_cast; rfl
+
+theorem swapPercentExact_eq (total : Nat) (u : Int) :
+    swapPercentExact total u = if total = 0 then 0 else (u : ℚ) / total * 100 := rfl
+
+theorem mem_ite_singleton (a b : String) (c : Prop) [Decidable c] :
+    a ∈ (if c then [b] else []) ↔ c ∧ a = b := by
+  split <;> simp_all
+
+/-- who is named in the warning, clause by clause -/
+theorem warned_mem (m : MemInfo) (free : Nat) (wm : Option Nat) (n : String) :
+    n ∈ warned m free wm ↔
+      ((m.get (K "Buffers")).isNone = true ∧ n = "buffers")
+      ∨ ((m.get (K "Cached")).isNone = true ∧ n = "cached")
+      ∨ (((m.get (K "Shmem")).isNone && (m.get (K "MemShared")).isNone) = true ∧ n = "shared")
+      ∨ ((m.get (K "Active")).isNone = true ∧ n = "active")
+      ∨ (((m.get (K "Inactive")).isNone
+            && !((m.get (K "Inact_dirty")).isSome && (m.get (K "Inact_clean")).isSome
+                  && (m.get (K "Inact_laundry")).isSome)) = true ∧ n = "inactive")
+      ∨ (Spec.availRaw m free wm < 0 ∧ n = "available") := by
+  unfold warned
+  simp only [List.mem_append, mem_ite_singleton, or_assoc]
+
 end Psutil.C08
